@@ -233,6 +233,14 @@ Theorem C10_control_flow_is_source :
                    (h_crpix1 (w_hdr w)) (h_crpix2 (w_hdr w))).
 Proof. split; [exact pix2inter_is_source|exact sky2image_direct_is_source]. Qed.
 
+(* ... and the domain of the lazy inverse fit ("over the whole image"): the grid ranges that
+   InvertPVDistortion / InvertSipDistortion hand to make_xy_grid are the image rectangle, axis by
+   axis (a swapped naxis or crpix index in the source breaks this theorem). *)
+Theorem C10_fit_grid_is_image : forall h,
+  src_pv_fit_ranges (h_naxis1 h) (h_naxis2 h) (h_crpix1 h) (h_crpix2 h) = image_rect_offsets h /\
+  src_sip_fit_ranges (h_naxis1 h) (h_naxis2 h) (h_crpix1 h) (h_crpix2 h) = image_rect h.
+Proof. exact fit_ranges_are_the_image. Qed.
+
 (* Non-vacuity: concrete distorted headers meet the hypotheses used above. *)
 Definition ex_header (p : proj) : header :=
   {| h_proj := p; h_crpix1 := 100; h_crpix2 := 200; h_crval1 := 359; h_crval2 := 89;
